@@ -82,11 +82,11 @@ func (c *checker) expr(e *Expr) {
 	e.Walk(func(x *Expr) {
 		if x.Op == "call" && (x.Name == "index" || x.Name == "isFirst" || x.Name == "isLast") {
 			// the position functions refer to the iteration state of a loop variable: that is bound by
-			// an enclosing loop of that name and by nothing else (a param or a let has no position)
+			// the loop whose variable the name refers to at that place, and by nothing else (a param or a let has no position)
 			bound := false
 			if len(x.Args) == 1 && x.Args[0].Op == "ref" && len(x.Args[0].Access) == 0 {
-				for _, b := range c.stack {
-					bound = bound || b.kind == "loop" && b.name == x.Args[0].Name
+				if b := c.resolve(x.Args[0].Name); b != nil && b.kind == "loop" {
+					bound = true // (the innermost binding of the name: a let inside the loop hides the variable)
 				}
 			}
 			if !bound {
